@@ -27,6 +27,25 @@ type genCase struct {
 	Printed string   `json:"printed,omitempty"`
 	What    string   `json:"what"`
 	Detail  string   `json:"detail,omitempty"`
+	// Combo lists the variants of a failure that needs several of them in one module.
+	Combo []genCase `json:"combination,omitempty"`
+}
+
+// variantsOfCase rebuilds the variant(s) of a replay file from the current catalogue.
+func variantsOfCase(cs genCase) []gen.Variant {
+	parts := cs.Combo
+	if len(parts) == 0 {
+		parts = []genCase{cs}
+	}
+	var out []gen.Variant
+	for k, p := range parts {
+		for i, e := range gen.Catalogue() {
+			if e.Name == p.Entry {
+				out = append(out, gen.Build(e, fmt.Sprintf("replay%d_", k), 10000000*(i+1)+16*k, p.Choices))
+			}
+		}
+	}
+	return out
 }
 
 // failure of one variant.
@@ -45,6 +64,24 @@ func (fs *failSet) add(v gen.Variant, kind, what, detail, printed string) {
 	fs.mu.Lock()
 	defer fs.mu.Unlock()
 	fs.fails = append(fs.fails, genFail{v, kind, genCase{Entry: v.Entry, Devs: v.Devs, Choices: v.Choices, Input: fw.Trunc(gen.Module([]gen.Variant{v}), 3000), Printed: fw.Trunc(printed, 3000), What: what, Detail: fw.Trunc(detail, 2000)}})
+}
+
+// addCombo records a failure of several variants together.
+func (fs *failSet) addCombo(vs []gen.Variant, kind, what, detail, printed string) {
+	var names []string
+	var parts []genCase
+	for _, v := range vs {
+		d := "default"
+		if len(v.Devs) > 0 {
+			d = strings.Join(v.Devs, ",")
+		}
+		names = append(names, v.Entry+"["+d+"]")
+		parts = append(parts, genCase{Entry: v.Entry, Devs: v.Devs, Choices: v.Choices})
+	}
+	pv := gen.Variant{Entry: "combination:" + strings.Join(names, "+")}
+	fs.mu.Lock()
+	defer fs.mu.Unlock()
+	fs.fails = append(fs.fails, genFail{pv, kind, genCase{Entry: pv.Entry, Combo: parts, Input: fw.Trunc(gen.Module(vs), 6000), Printed: fw.Trunc(printed, 3000), What: what + " (only when these variants are in one module)", Detail: fw.Trunc(detail, 2000)}})
 }
 
 // report emits one violation per MINIMAL failing deviation set (a failing variant whose deviation
@@ -137,70 +174,50 @@ func idInRange(text string, base int) bool {
 	return false
 }
 
-// c01process checks a batch of LLVM-valid variants; on any failure it recurses on halves so that
-// every failure is attributed to single variants.
-func c01process(c *fw.Check, fs *failSet, vs []gen.Variant) {
-	if len(vs) == 0 {
-		return
-	}
-	split := func() {
-		h := len(vs) / 2
-		c01process(c, fs, vs[:h])
-		c01process(c, fs, vs[h:])
-	}
+// c01test checks one module made of LLVM-valid variants.
+func c01test(vs []gen.Variant) (kind, what, detail, printed string) {
 	x := gen.Module(vs)
+	if len(vs) > 1 {
+		// the union of variants LLVM accepts one by one need not be accepted as one module.
+		if ok, _ := fw.LLVMAccepts(x); !ok {
+			return "split", "", "", ""
+		}
+	}
 	m, errs, pan := parseTry(x)
-	if errs != "" || pan != "" {
-		if len(vs) > 1 {
-			split()
-			return
-		}
-		if pan != "" {
-			fs.add(vs[0], "llir-parse-panics", "asm.ParseString panics on a module LLVM accepts", pan, "")
-		} else {
-			fs.add(vs[0], "llir-rejects", "asm.ParseString rejects a module LLVM accepts", errs, "")
-		}
-		return
+	if pan != "" {
+		return "llir-parse-panics", "asm.ParseString panics on a module LLVM accepts", pan, ""
+	}
+	if errs != "" {
+		return "llir-rejects", "asm.ParseString rejects a module LLVM accepts", errs, ""
 	}
 	var y string
 	if p := fw.Try(func() { y = m.String() }); p != "" {
-		if len(vs) > 1 {
-			split()
-			return
-		}
-		fs.add(vs[0], "print-panics", "String() panics on a module the parser produced", p, "")
-		return
+		return "print-panics", "String() panics on a module the parser produced", p, ""
 	}
 	dy, ey, oky, _ := fw.AsDis(y)
 	if !oky {
-		if len(vs) > 1 {
-			split()
-			return
-		}
 		if fw.IsToolCrash(ey) {
-			return // the oracle crashed (LLVM defect): case skipped, counted in evidence
+			if len(vs) > 1 {
+				return "split", "", "", "" // find the variants the oracle can read
+			}
+			return "", "", "", "" // the oracle crashed (LLVM defect): case skipped, counted in evidence
 		}
-		fs.add(vs[0], "llvm-rejects-printed", "LLVM rejects the printed module", ey, y)
-		return
+		return "llvm-rejects-printed", "LLVM rejects the printed module", ey, y
 	}
-	dx, ex, okx, warned := fw.AsDis(x)
+	dx, _, okx, warned := fw.AsDis(x)
 	if !okx || warned {
-		// generator defect (should have been filtered): skip.
-		_ = ex
-		return
+		if len(vs) > 1 {
+			return "split", "", "", ""
+		}
+		return "", "", "", "" // generator defect (should have been filtered): skip.
 	}
-	c.Valid(int64(len(vs)))
 	if dx == dy {
-		return
+		return "", "", "", ""
 	}
 	cx, cy := llcanon.Canon(dx), llcanon.Canon(dy)
 	onlyX, onlyY := llcanon.Diff(cx, cy)
 	if len(onlyX) == 0 && len(onlyY) == 0 {
-		return
-	}
-	if len(vs) > 1 {
-		split()
-		return
+		return "", "", "", ""
 	}
 	var sx, sy []string
 	for _, e := range onlyX {
@@ -209,7 +226,14 @@ func c01process(c *fw.Check, fs *failSet, vs []gen.Variant) {
 	for _, e := range onlyY {
 		sy = append(sy, e.Text)
 	}
-	fs.add(vs[0], "meaning-changed", "LLVM's reading of the printed module differs from its reading of the input", "input (canonical, differing entities):\n"+strings.Join(sx, "\n")+"\nprinted (canonical, differing entities):\n"+strings.Join(sy, "\n"), y)
+	return "meaning-changed", "LLVM's reading of the printed module differs from its reading of the input", "input (canonical, differing entities):\n" + strings.Join(sx, "\n") + "\nprinted (canonical, differing entities):\n" + strings.Join(sy, "\n"), y
+}
+
+// c01process checks a batch of LLVM-valid variants; failures are narrowed to single variants, or
+// to a smallest failing combination when no single variant fails on its own.
+func c01process(c *fw.Check, fs *failSet, vs []gen.Variant) {
+	c.Valid(int64(len(vs)))
+	bisect(fs, vs, c01test)
 }
 
 func runC01(c *fw.Check) {
@@ -393,14 +417,11 @@ func c01stress(c *fw.Check, seeds int, sizes []int) {
 func replayC01(c *fw.Check, path string) {
 	var cs genCase
 	loadReplay(path, &cs)
-	for i, e := range gen.Catalogue() {
-		if e.Name == cs.Entry {
-			v := gen.Build(e, "replay_", 10000000*(i+1), cs.Choices)
-			fmt.Printf("replay %s %v:\n%s\n", v.Entry, v.Devs, gen.Module([]gen.Variant{v}))
-			fs := &failSet{}
-			c01process(c, fs, []gen.Variant{v})
-			fs.report(c)
-		}
+	if vs := variantsOfCase(cs); len(vs) > 0 {
+		fmt.Printf("replay %s:\n%s\n", cs.Entry, gen.Module(vs))
+		fs := &failSet{}
+		c01process(c, fs, vs)
+		fs.report(c)
 	}
 	c.Case("a", "a")
 	c.Case("b", "b")
